@@ -173,7 +173,7 @@ def run(tier, seed, replay=None):
             res.violation("C14/generated-route-families-differ", "set %d: expected %d routes (N+1 families), got %d; first difference: %s" % (
                 si, len(want), len(got), next(((a, b) for a, b in zip(want, got) if a != b), None)), {"set": si})
         res.count("route-families-checked", len(S["names"]) + 1)
-    n_hist = 400 if tier == "quick" else 60000
+    n_hist = 3000 if tier == "quick" else 60000
     reqs, plan = [], []
     rid = 0
     for h in range(n_hist):
@@ -199,6 +199,15 @@ def run(tier, seed, replay=None):
         rid += 1
         # a history of switches; each step is asked with the URL the *model* expects (so one bad step does not cascade)
         steps = rng.randint(1, 6)
+        if cur_loc == S["default"] and rng.random() < 0.5:
+            # the default locale may also be written explicitly (/en/about is one of the N+1 route families): leaving it
+            # rewrites that prefix like any other; the way back yields the prefix-less form, so no round-trip law here
+            xurl = "/" + "/".join(segs(base) + [cur_loc] + rest)
+            new_loc = gen.pick(rng, [l for l in S["names"] if l != cur_loc])
+            reqs.append({"id": rid, "set": si, "op": "new_path", "path": xurl, "search": search, "hash": frag, "base": base, "new": new_loc, "old": cur_loc})
+            want = switch(xurl, search, frag, base, cur_loc, new_loc, S["default"], table)
+            plan.append((rid, "switch-explicit-default", si, base, (xurl, search, frag, cur_loc, new_loc), want))
+            rid += 1
         for _ in range(steps):
             new_loc = gen.pick(rng, [l for l in S["names"] if l != cur_loc])
             reqs.append({"id": rid, "set": si, "op": "new_path", "path": url, "search": search, "hash": frag, "base": base, "new": new_loc, "old": cur_loc})
@@ -253,7 +262,7 @@ def run(tier, seed, replay=None):
             url, search, frag, a, b = arg
             res.nontriv([kind, si, base, url, a, b])
             if o["path"] != want:
-                sig = "C14/%s-differs" % ("switch" if kind == "switch" else "round-trip")
+                sig = "C14/%s-differs" % ("switch" if kind.startswith("switch") else "round-trip")
                 cls = "base-without-leading-slash" if (base and not base.startswith("/")) else ("base-%s" % ("root" if base in ("/", "") else "nested"))
                 res.violation(sig + "/" + cls, "locales=%s base=%r %s -> %s url=%r ?%s #%s\n  expected %r\n  observed %r" % (
                     S["names"], base, a, b, url, search, frag, want, o["path"]),
